@@ -1,13 +1,13 @@
 #!/bin/bash
 # runs every thorough tier in turn, records exit code and wall time (used during the build round)
-cd /verif
-out=${1:-/verif/work/thorough_summary.log}
-: > $out
+cd "$(dirname "$0")/.."; V=$(pwd)
+out=${1:-$V/work/thorough_summary.log}
+mkdir -p $V/work; : > $out
 for c in C05 C09 C17 C20 C15 C16 C19 C08 C06 C14 C03 C12 C13 C18 C11 C10 C07 C04 C02 C01; do
   s=$(date +%s)
-  timeout 5400 ./check $c --tier thorough > /verif/work/thorough_$c.log 2>&1
+  timeout 5400 ./check $c --tier thorough > $V/work/thorough_$c.log 2>&1
   rc=$?
   e=$(date +%s)
-  echo "$c rc=$rc wall=$((e-s))s violations=$(grep -c '^VIOLATION' /verif/work/thorough_$c.log)" >> $out
+  echo "$c rc=$rc wall=$((e-s))s violations=$(grep -c '^VIOLATION' $V/work/thorough_$c.log)" >> $out
 done
 echo done >> $out
